@@ -30,13 +30,14 @@ class C03(diffcheck.DiffProp):
     uses_consts = True
     counts = {"quick": 240, "thorough": 2400}
     manifest = dict(
-        text="Coq proof over an interleaving labelled transition system (one atomic memory operation or system call = one label) of the runtime thread (block_on loop and external-loop mode: poll main future, tick with drain_sync, reset, arm notifier, enter, set_awake, poll_entries, set_awake / flush, external wait, poll(zero)), any number of waker threads going through Remote::schedule and Notify::wake_by_ref, and the kernel (notifier completions, multishot termination), for every queue capacity >= 1 and both notifier flavours: in every reachable state a completed, unconsumed wake of a task or of the main future implies the runtime is not stuck in its wait (ready, or eventfd non-zero with the notifier armed, or a waker on its way); measure on the runtime's own steps until the next poll; SCHEDULED coalesces only while the id is queued / hot / being pushed; a full queue makes the waker wait and `pending` bounds the queued ids. Witness lemmas refute the two earlier code variants (flush not arming the notifier, fixed by 43c7a63; no driver wake after a push that waited for a slot, fixed by 98ca18e). Tied to the code by accepting hook-recorded histories of the real drivers (stress, forced windows at the sched points of Driver::poll, external-loop black box, real Runtime with queue sizes 1/2/64 incl. the forced full-queue window) with the extracted acceptor (its driver-level transition function is proved to accept every projected run of the LTS, keeping flag / NEED_PUSH_NOTIFIER / owed notifier writes equal: C03_model_runs_accepted), plus oracles on measured outcomes.",
+        text="Coq proof over an interleaving labelled transition system (one atomic memory operation or system call = one label) of the runtime thread (block_on loop and external-loop mode: poll main future, tick with drain_sync, reset, arm notifier, enter, set_awake, poll_entries, set_awake / flush, external wait, poll(zero)), any number of waker threads going through Remote::schedule and Notify::wake_by_ref, and the kernel (notifier completions, multishot termination), for every queue capacity >= 1 and both notifier flavours: in every reachable state a completed, unconsumed wake of a task or of the main future implies the runtime is not stuck in its wait (ready, or eventfd non-zero with the notifier armed, or a waker on its way); measure on the runtime's own steps until the next poll; SCHEDULED coalesces only while the id is queued / hot / being pushed; a full queue makes the waker wait and `pending` bounds the queued ids; a task woken on the runtime's own thread from outside run/flush/poll (host-loop callback in external-loop mode, also between flush and the sleep on the descriptor) never leaves the loop asleep un-notified with a hot task (C03_hot_never_sleeps). Witness lemmas refute the two earlier code variants (flush not arming the notifier, fixed by 43c7a63; no driver wake after a push that waited for a slot, fixed by 98ca18e) and a hypothetical Local::schedule without the driver wake. Tied to the code by accepting hook-recorded histories of the real drivers (stress, forced windows at the sched points of Driver::poll, external-loop black box, real Runtime with queue sizes 1/2/64 incl. the forced full-queue window, and a host event loop driving a real Runtime through its descriptor with same-thread / cross-thread / timer / I/O wake sources under a sleep watchdog) with the extracted acceptor (its driver-level transition function is proved to accept every projected run of the LTS, keeping flag / NEED_PUSH_NOTIFIER / owed notifier writes equal: C03_model_runs_accepted), plus oracles on measured outcomes.",
         note="Partial: sequential consistency only (weak-memory reorderings allowed by the Acquire/Release orderings are not modelled); eventfd / io_uring multishot poll / epoll level semantics are environment labels (assumed); task completion and cancellation, the blocking pool, SQ overflow inside arm_notifier and the drain piggy-backed on a local wake are left out of the model; the tokio / async-io adapters of compio-compat are not run (the external loop is played by the harness: flush, libc::poll on the driver fd, poll(zero)); forced multishot termination is proved in the model (LKTerm) but not provoked on the real kernel. Trusted: Coq kernel, extraction + driver, cfg(compio_verif) hook commits in compio-driver and compio-executor, harness/rt/src/bin/c03.rs, the acceptor's reconstruction of the atomic order (a linearizability search: every AwakeFlag operation takes effect between its AWAKE_BEGIN entry and its own log entry, budgeted depth-first search over the operations in flight) is executable Gallina but not itself proved complete; its transition function dstep is proved to accept the model's runs in atomic order. No axioms.",
         technique="Coq invariant proof over an interleaving LTS + acceptance of recorded histories by the extracted acceptor + forced-schedule replay")
     rule = ("cases = stress histories (K in {1,2,4,8} waker threads x R wakes against a looping poll), forced windows "
             "(sched points 1,2,3 of Driver::poll), external-loop black box (flush, wake, fd readable; 4 variants), "
             "executor level (tasks / main future woken concurrently, queue sizes 1,2,64, queue-full path with the "
-            "runtime held, forced full-queue window), both drivers; non-trivial = the history has a remote wake and a "
+            "runtime held, forced full-queue window), host event loop on a real Runtime (run / flush / bounded sleep on the "
+            "descriptor / poll(0); wake sources: same-thread callback after or before flush, own waker, cross-thread, timer, I/O), both drivers; non-trivial = the history has a remote wake and a "
             "kernel entry; distinct = distinct cases (seeded schedules)")
     trusted_base = [
         "Coq 8.16.1 kernel (coqc, full .vo build)",
@@ -54,13 +55,13 @@ class C03(diffcheck.DiffProp):
     ]
 
     def model_input(self, case, out):
-        if not out or len(out) < 7 or out[0] not in (1, 2, 3, 4):
+        if not out or len(out) < 7 or out[0] not in (1, 2, 3, 4, 5):
             return [case[1] if len(case) > 1 and case[1] in (0, 1) else 0, 0]
         n = out[6]
         return [out[1], n] + out[7:7 + 3 * n]
 
     def model_expected(self, case, out):
-        if not out or len(out) < 7 or out[0] not in (1, 2, 3, 4):
+        if not out or len(out) < 7 or out[0] not in (1, 2, 3, 4, 5):
             return [1, 0, 0]
         _, evs = parse(out)
         return [1, len(evs), sum(1 for e in evs if e[0] == 22)]
@@ -92,6 +93,12 @@ class C03(diffcheck.DiffProp):
             if r4 != 0:
                 return ("%s runtime, sub-mode %d, queue size %d: %d of %d woken futures were not polled again "
                         "after every wake() had returned" % (d, r1, r2, r4, r3))
+        elif mode == 5:
+            src = gen_c03.SOURCES.get(r1, "?")
+            if r4 != 0:
+                return ("%s runtime driven by a host event loop (run / flush / sleep on the descriptor / poll(0)), wake "
+                        "source %s: in %d of %d rounds the loop slept its whole %d ms watchdog although a task was "
+                        "runnable / a wake had been issued: lost wake-up" % (d, src, r4, r2, 1500))
         return None
 
     def known(self, case, out, what):
